@@ -19,7 +19,7 @@ from .program import ClassInfo, FuncInfo, Unit, norm
 SAFE_METHODS = {
     dict: {"items", "keys", "values", "get", "copy"},
     list: {"append", "extend", "copy", "index", "count"},
-    str: {"format", "title", "startswith", "endswith", "lower", "upper", "join", "replace", "split"},
+    str: {"format", "title", "startswith", "endswith", "lower", "upper", "join", "replace", "split", "strip", "lstrip", "rstrip", "find", "isdigit"},
     tuple: {"index", "count"},
     set: {"add", "union", "copy", "difference", "intersection", "issubset", "update", "discard"},
 }
@@ -43,6 +43,9 @@ EXTERNAL = {
     "pandas.DataFrame": _frame,
     "pandas.Series": lambda *a, **k: _series(*a, **k),
     "pandas.concat": lambda *a, **k: _concat(*a, **k),
+    "re.compile": lambda *a, **k: __import__("re").compile(*a, **k),
+    "re.escape": lambda *a, **k: __import__("re").escape(*a, **k),
+    "operator.attrgetter": lambda *a: __import__("operator").attrgetter(*a),
 }
 
 
@@ -174,6 +177,16 @@ class Interp:
             return FuncRef(sym)
         if isinstance(sym, str) and sym in EXTERNAL_CONSTANTS:
             return EXTERNAL_CONSTANTS[sym]
+        # module-level constants of the unit: literals and compiled regular expressions over literals
+        g = ev.fn.unit.globals.get(e.id)
+        if g:
+            v = g[-1]
+            if isinstance(v, ast.Constant):
+                return v.value
+            if isinstance(v, ast.Call) and norm(v.func) == "re.compile" and v.args and all(isinstance(a, ast.Constant) for a in v.args) and not v.keywords:
+                import re as _re
+
+                return _re.compile(*[a.value for a in v.args])
         return NotImplemented
 
     def call_value(self, target, args, kwargs, ev, node):
@@ -302,6 +315,9 @@ class Interp:
                     if sym.qualname in self.follow:
                         return self.call(sym, args, kwargs)
                     raise Unknown(f"call to {sym.qualname} is not modelled")
+                if isinstance(sym, ClassInfo) and f"{sym.unit.modname}.{sym.name}" in self.stubs:
+                    args, kwargs = self.args_of(ev, c)
+                    return self.stubs[f"{sym.unit.modname}.{sym.name}"](self, ev, c, args, kwargs)
                 if isinstance(sym, ClassInfo) and any(str(b).split(".")[-1] == "NamedTuple" for b in self.prog.ext_bases(sym)):
                     fields = [st.target.id for st in sym.node.body if isinstance(st, ast.AnnAssign) and isinstance(st.target, ast.Name)]
                     nt = namedtuple(sym.name, fields)  # type: ignore[misc]
@@ -332,6 +348,16 @@ class Interp:
         if isinstance(f, ast.Attribute) and isinstance(f.value, ast.Name) and f.value.id == "dict" and f.attr == "fromkeys" and "dict" not in ev.env:
             args, kwargs = self.args_of(ev, c)
             return dict.fromkeys(*args)
+        if isinstance(f, ast.Name) and f.id == "print" and "print" not in ev.env:
+            for a in c.args:
+                ev.eval(a)
+            return None
+        if isinstance(f, ast.Name) and f.id in ("sorted",) and "sorted" not in ev.env and c.keywords:
+            args, kwargs = self.args_of(ev, c)
+            return sorted(*args, **kwargs)
+        if isinstance(f, ast.Name) and f.id == "format" and "format" not in ev.env:
+            args, kwargs = self.args_of(ev, c)
+            return format(*args)
         if isinstance(f, ast.Name) and f.id == "map" and len(c.args) == 2:
             target = ev.eval(c.args[0])
             if isinstance(target, (FuncRef, PartialRef, Closure)):
